@@ -156,7 +156,7 @@ static J gen_c15 (uint64_t seed, uint64_t idx)
 	}
 	cfg ["enumerate"] = 1 ;
 	// quick: 6 sampled fault points per plan. thorough: 24, and every 8th plan enumerates all of its fault points (capped at 3000)
-	cfg ["sample"] = g_thorough ? (idx % 8 == 3 ? 0 : 24) : 6 ;
+	cfg ["sample"] = g_thorough ? ((idx / 16 + idx) % 8 == 3 ? 0 : 24) : 6 ;		// spread over workers (which take indices modulo their number)
 	if (g_thorough) cfg ["sample_cap"] = 3000 ;
 	return plan ;
 }
@@ -309,6 +309,7 @@ static Verdict check_c15 (const J &plan)
 	uint64_t s = (uint64_t) plan.geti ("seed") ;
 	int64_t covered = 0, fired = 0 ;
 	std::set<int64_t> chosen ;
+	std::set<std::pair<int, int>> hung ; int64_t skipped_same_hang = 0 ;
 	// read/write histories: two of the samples are spent on single failed seeks inside sf_seek calls (the store.prefix case decidable there)
 	std::vector<int64_t> seekpts ;
 	if (cfg.gets ("class") == "RW" && want < total)
@@ -323,6 +324,9 @@ static Verdict check_c15 (const J &plan)
 	{	int64_t k = want == total ? j : j >= want ? seekpts [(size_t) (mix3 (s, 0x5eec, (uint64_t) j) % seekpts.size ())] : (int64_t) (mix3 (s, 0xfa17, (uint64_t) j) % (uint64_t) total) ;
 		if (!chosen.insert (k).second) continue ;
 		const FaultPoint &fp = pts [(size_t) k] ;
+		// a call that never returns costs a whole step budget: once a persistent fault of one kind has hung a given op, later I/O
+		// steps of the same op with the same persistent kind are not enumerated again (counted, not covered)
+		if (fp.persistent && hung.count ({ fp.op, fp.kind })) { skipped_same_hang ++ ; continue ; }
 		J p2 = plan ; p2 ["cfg"].erase ("enumerate") ;
 		J fl = J::arr () ; J fj = J::obj () ;
 		fj ["task"] = 0 ; fj ["op"] = fp.op ; fj ["io"] = fp.io ; fj ["kind"] = fault_name (fp.kind) ; fj ["arg"] = (long long) fp.arg ; fj ["persistent"] = fp.persistent ? 1 : 0 ;
@@ -332,6 +336,7 @@ static Verdict check_c15 (const J &plan)
 		v.absorb (r) ;
 		covered ++ ;
 		if (r.have_fault_snapshot) fired ++ ;
+		if (r.budget_hit && fp.persistent) hung.insert ({ fp.op, fp.kind }) ;
 		size_t before = v.findings.size () ;
 		add_owned (v, "C15", r, owned_c15 ()) ;
 		check_store_prefix (v, p2, r, base, *f) ;
@@ -341,6 +346,7 @@ static Verdict check_c15 (const J &plan)
 	v.extra = J::obj () ;
 	v.extra ["fault_points_total"] = (long long) total ; v.extra ["fault_points_covered"] = (long long) covered ; v.extra ["fault_points_fired"] = (long long) fired ;
 	if (all_points) v.probes ["plans_with_every_fault_point_enumerated"] ++ ;
+	if (skipped_same_hang) v.probes ["fault_points_skipped_same_hang"] += (uint64_t) skipped_same_hang ;
 	v.probes ["fault_points_total"] += (uint64_t) total ; v.probes ["fault_points_covered"] += (uint64_t) covered ; v.probes ["fault_points_fired"] += (uint64_t) fired ;
 	v.nontrivial = fired > 0 ;
 	return v ;
